@@ -188,16 +188,26 @@ inductive HStep where
   | setParam (p : Nat)
   /-- `group_sound_events([objects…], callable)` -/
   | call (objs : List Nat)
+  /-- `group_sound_events([objects…], callable)` in which the comparison callable raised at its call number `at`
+      and the caller caught the exception: the call yields no result (follow-up R6-C13) -/
+  | abort (objs : List Nat) (at_ : Nat)
 deriving Repr, DecidableEq
 
+/-- a call of the function under test, completed or aborted -/
 def HStep.isCall : HStep → Bool
   | .call _ => true
+  | .abort _ _ => true
+  | _ => false
+
+def HStep.isAbort : HStep → Bool
+  | .abort _ _ => true
   | _ => false
 
 def World.apply (w : World) : HStep → World
   | .edit o c => { w with content := w.content.set o c }
   | .setParam p => { w with param := p }
   | .call _ => w
+  | .abort _ _ => w
 
 def worldAfter (w : World) (steps : List HStep) : World := steps.foldl World.apply w
 
@@ -215,6 +225,7 @@ def callWorlds : World → List HStep → List (World × List Nat)
   | w, .call objs :: rest => (w, objs) :: callWorlds w rest
   | w, .edit o c :: rest => callWorlds (w.apply (.edit o c)) rest
   | w, .setParam p :: rest => callWorlds (w.apply (.setParam p)) rest
+  | w, .abort _ _ :: rest => callWorlds w rest
 
 /-- the results of the calls of a history, in order -/
 def runHistory (R : Nat → Nat → Nat → Bool) (uu : List Nat) (w : World) (steps : List HStep) :
